@@ -99,6 +99,8 @@ def gen_case(ctx):
                 choices += ["add"]
             if len(live) > 1 and not propagate:
                 choices += ["delete", "delete"]
+            if not propagate and len(added) < n and len(live) >= 1:
+                choices += ["delete-before-add"]
             if pair and not merged and pair[2] in added and pair[3] in added:
                 choices += ["merge_patches", "merge_patches"]
             choices += ["assemble", "assemble"]
@@ -113,6 +115,13 @@ def gen_case(ctx):
             i = rng.choice(live)
             deleted.add(i)
             hist.append(["delete", i])
+        elif c == "delete-before-add":
+            # assembly is lazy: an operation may be excluded before it (or the entity that owns it) is added
+            i = rng.choice([i for i in range(n) if i not in added])
+            deleted.add(i)
+            added.append(i)
+            hist.append(["delete", i])
+            hist.append(["add", i])
         elif c == "merge_patches":
             merged = True
             hist.append(["merge_patches", pair[0], pair[1]])
@@ -136,7 +145,7 @@ def gen_case(ctx):
         elif c == "modify_patch":
             if names:
                 hist.append(["modify_patch", rng.choice(names), rng.choice(["wall", "cyclic", "empty"]),
-                             rng.choice([None, ["inGroups (a b)"], ["neighbourPatch x"]])])
+                             rng.choice([None, ["inGroups (a b)"], ["neighbourPatch x"], []])])  # []: takes earlier settings back
         elif c == "set_default_patch":
             hist.append(["set_default_patch", rng.choice(["def", "rest"]), rng.choice(["wall", "patch"])])
         elif c == "write":
